@@ -208,7 +208,9 @@ func attributeTo(property string, v Violation, res *Result) (Violation, bool) {
 	case "C11":
 		// a pause must be lossless: after it is lifted the set converges as if it
 		// had never been paused (the flags profile lifts every pause before quiesce)
-		if v.Prop == "C02" && res.Config != nil && res.Config.UnpauseAtQuiesce && res.Counters["probe.pause_lifted_at_quiesce"] > 0 {
+		// (only violations about a set that had been paused; a hostile-profile or
+		// unrelated C02 violation of another set in the same run is not C11's)
+		if v.Prop == "C02" && res.Config != nil && res.Config.UnpauseAtQuiesce && containsStr2(res.Unpaused, v.Set) {
 			return Violation{Prop: "C11", Check: "C11.pause-lossy", Disc: v.Check + ":" + v.Disc, Step: v.Step, Detail: v.Detail}, true
 		}
 	case "C15":
@@ -539,4 +541,13 @@ func engineRun(engine string) func(*testing.T, RunSpec) *Result {
 		return RunSweep
 	}
 	panic("unknown engine " + engine)
+}
+
+func containsStr2(l []string, x string) bool {
+	for _, y := range l {
+		if y == x && x != "" {
+			return true
+		}
+	}
+	return false
 }
